@@ -315,6 +315,74 @@ theorem ncheck_all (n : List UInt8) : ncheck n 0xff = none := by
     simp [this]
   · exact ncheckChars_all _ _
 
+/-- the name restriction of the specification is the one `mpt_parse_ncheck` applies -/
+theorem charsFit_ncheck (flags : Nat) : ∀ (l : List UInt8) (b : Bool), charsFit flags b l = true →
+    ncheckChars flags b l = none := by
+  intro l
+  induction l with
+  | nil => intro b _; rfl
+  | cons c r ih =>
+    intro b h
+    simp only [charsFit, Bool.and_eq_true] at h
+    obtain ⟨hc, hr⟩ := h
+    have hr' := ih false hr
+    unfold ncheckChars
+    have e1 : Render.isSpace c = isspace c := rfl
+    have e2 : Render.isDigit c = isdigit c := rfl
+    have e3 : Render.isPrint c = isprint c := rfl
+    have e4 : Render.isAlnum c = isalnum c := by
+      simp [Render.isAlnum, isalnum, isalpha, Render.isDigit, isdigit, Bool.or_assoc]
+    rw [e1, e2, e3, e4] at hc
+    by_cases h1 : isspace c = true
+    · simp only [h1, ↓reduceIte] at hc ⊢
+      have : has flags NameFlag.space = true := hc
+      simp [this, hr']
+    · simp only [h1, Bool.false_eq_true, ↓reduceIte] at hc ⊢
+      by_cases h2 : isdigit c = true
+      · simp only [h2, ↓reduceIte] at hc ⊢
+        have : has flags (if b = true then NameFlag.numStart else NameFlag.numCont) = true := by
+          cases b <;> exact hc
+        simp [this, hr']
+      · simp only [h2, Bool.false_eq_true, ↓reduceIte] at hc ⊢
+        by_cases h3 : isprint c = true
+        · simp only [h3, Bool.not_true, Bool.false_eq_true, ↓reduceIte] at hc ⊢
+          by_cases h4 : isalnum c = true
+          · simp [h4, hr']
+          · simp only [h4, Bool.not_false, ↓reduceIte] at hc ⊢
+            have : has flags NameFlag.special = true := hc
+            simp [this, hr']
+        · simp only [h3, Bool.not_false, ↓reduceIte] at hc ⊢
+          have : has flags NameFlag.binary = true := hc
+          simp [this, hr']
+
+theorem nameFits_ncheck (flags : Nat) (n : List UInt8) (h : nameFits flags n = true) : ncheck n flags = none := by
+  unfold nameFits at h
+  unfold ncheck
+  split
+  · rename_i he
+    rw [if_pos he] at h
+    have : has flags NameFlag.empty = true := h
+    simp [this]
+  · rename_i he
+    rw [if_neg he] at h
+    exact charsFit_ncheck flags n true h
+
+/-- every name fits the word with all flags set -/
+theorem charsFit_all : ∀ (l : List UInt8) (b : Bool), charsFit 0xff b l = true := by
+  intro l
+  induction l with
+  | nil => intro _; rfl
+  | cons c r ih =>
+    intro b
+    simp only [charsFit, ih, Bool.and_true]
+    cases b <;> (repeat' split) <;> decide
+
+theorem nameFits_all (n : List UInt8) : nameFits 0xff n = true := by
+  unfold nameFits
+  split
+  · decide
+  · exact charsFit_all n true
+
 /-- a Boolean property of all 256 byte values, checked by evaluation -/
 theorem forall_byte (p : UInt8 → Bool) (h : (List.range 256).all (fun k => p (UInt8.ofNat k)) = true)
     (c : UInt8) : p c = true := by
